@@ -225,7 +225,7 @@ package fsnotify
 //@ func (w *inotify) handleEvent(inEvent *unix.InotifyEvent, buf *[65536]byte, offset uint32) (ev Event, ok bool)
 //@   requires token(sawOpen)                  [C14 C13 C06] "only an operation that has seen the Watcher open goes on to use its descriptor"
 //@   mode modeA: !enableRecurse
-//@   mode modeB: enableRecurse                    [C19]
+//@   mode modeB: enableRecurse                    [C19 C05]
 //@   requires modeB ==> inEvent.Mask & (unix.IN_IGNORED | unix.IN_UNMOUNT | unix.IN_DELETE_SELF | unix.IN_MOVE_SELF) == 0       [C19] "mode B (the unfinished recursive feature) is verified for notifications that do not end a watch"
 //@   requires token(reader) && nolocks() && Wf(w) && RingInv(w) && inEvent != nil && buf != nil
 //@   requires !closed(w.Errors) && !closed(w.Events)
